@@ -301,11 +301,62 @@ def rule_r4(prog, res) -> None:
     cc, lh = prog.func("create_columns"), prog.func("load_header")
     for f in (wd, ld, ws, ls, cc, lh):
         res.touch(f)
-    # write_data: zip(a, b, c, d) -> row of that many values
-    zips = [c for c in calls_in(wd) if isinstance(c.func, ast.Name) and c.func.id == "zip"]
-    if len(zips) != 1:
-        raise AnalysisError("C11.R4: write_data no longer builds its rows from one zip")
-    n_written = len(zips[0].args)
+    # rows as written: the argument of " ".join(...) in the write call of the row loop, on the symbolic store
+    # (helpers looked through): a fixed number of leading columns, optionally followed by a variable tail
+    from .. import symx
+
+    def row_shape(fi):
+        """-> (leading column expressions, variable tail expression or None, write event)"""
+        paths = symx.explore(prog, fi, inline=symx.inline_private_helpers(prog, public={"write_header", "create_columns", "format_float_fixed_width"}))
+        for p in paths:
+            for ev in p.calls("write"):
+                if not ev.loops:
+                    continue
+                joins = [x for x in ast.walk(ev.expr) if isinstance(x, ast.Call) and isinstance(x.func, ast.Attribute) and x.func.attr == "join" and x.args]
+                if not joins:
+                    continue
+                J = joins[0].args[0]
+
+                def shape(e, depth=0):
+                    e = symx.strip_wrappers(e)
+                    if depth > 6:
+                        return None
+                    if isinstance(e, (ast.ListComp, ast.GeneratorExp)) and len(e.generators) == 1 and not e.generators[0].ifs:
+                        return shape(e.generators[0].iter, depth + 1)
+                    if isinstance(e, (ast.List, ast.Tuple)):
+                        lead = []
+                        for i, x in enumerate(e.elts):
+                            if isinstance(x, ast.Starred):
+                                if i != len(e.elts) - 1:
+                                    return None
+                                return lead, x.value
+                            lead.append(x)
+                        # a list literal that is extended afterwards by an iterable
+                        ext = [e2 for e2 in p.calls("extend") if isinstance(e2.expr.func, ast.Attribute) and unparse(e2.expr.func.value) == unparse(e) and e2.expr.args]
+                        return lead, (ext[0].expr.args[0] if ext else None)
+                    if isinstance(e, ast.Call) and isinstance(e.func, ast.Name) and e.func.id == symx.ELEM and e.args:
+                        z = e.args[0]
+                        if isinstance(z, ast.Call) and isinstance(z.func, ast.Name) and z.func.id == "zip":
+                            return list(z.args), None
+                    if isinstance(e, ast.BinOp) and isinstance(e.op, ast.Add):
+                        l, r = shape(e.left, depth + 1), shape(e.right, depth + 1)
+                        if l is not None and l[1] is None:
+                            if r is not None and r[1] is None:
+                                return l[0] + r[0], None
+                            return l[0], e.right
+                    if isinstance(e, ast.Call) and isinstance(e.func, ast.Name) and e.func.id in ("list", "tuple") and len(e.args) == 1:
+                        return shape(e.args[0], depth + 1)
+                    return None
+
+                sh = shape(J)
+                if sh is not None:
+                    return sh[0], sh[1], ev
+        return None
+
+    shd = row_shape(wd)
+    if shd is None or shd[1] is not None:
+        raise AnalysisError("C11.R4: rows written by write_data not recognised (expected a fixed number of columns per row)")
+    n_written = len(shd[0])
     unpack = [x for x in walk_no_nested(ld.node) if isinstance(x, ast.Assign) and isinstance(x.targets[0], ast.Tuple) and "loadtxt" in unparse(x.value)]
     if len(unpack) != 1:
         raise AnalysisError("C11.R4: load_data no longer unpacks the loaded columns")
@@ -318,18 +369,16 @@ def rule_r4(prog, res) -> None:
         res.ok("C11.R4", res.site(ld), f"{n_written} columns written per row, {n_read} unpacked")
     else:
         res.violation("C11.R4", ld, unpack[0], f".dat rows have {n_written} values (header announces {cols_w}) but load_data unpacks {n_read}", key_extra="dat-arity")
-    # the unpacked order: zleft, zright, data, error  vs written zip order
-    wnames = [unparse(a) for a in zips[0].args]
+    # the unpacked order: zleft, zright, data, error  vs written column order (parameter names of write_data)
+    wnames = [unparse(a) for a in shd[0]]
     rnames = [e.id if isinstance(e, ast.Name) else "_" for e in unpack[0].targets[0].elts]
     if wnames[:3] == rnames[:3]:
         res.ok("C11.R4", res.site(ld, "column order"), f"columns written as {wnames} and read as {rnames}")
     else:
         res.violation("C11.R4", ld, unpack[0], f"columns are written in the order {wnames} but read as {rnames}", key_extra="dat-column-order")
     # samples: two binning columns then the samples, reader drops exactly two
-    lead = None
-    for x in walk_no_nested(ws.node):
-        if isinstance(x, ast.Assign) and isinstance(x.value, ast.List) and any(isinstance(t, ast.Name) and t.id == "formatted" for t in x.targets):
-            lead = len(x.value.elts)
+    shs = row_shape(ws)
+    lead = len(shs[0]) if shs is not None and shs[1] is not None else None
     drop = None
     for x in walk_no_nested(ls.node):
         if isinstance(x, ast.Subscript) and isinstance(x.slice, ast.Slice) and x.slice.lower is not None and x.slice.upper is None and isinstance(x.slice.lower, ast.Constant):
